@@ -194,6 +194,13 @@ func replayFile(t *testing.T, out *workerOut) {
 		t.Fatal(err)
 	}
 	plan := rf.Plan
+	if plan == nil {
+		// a bare plan (as printed by TestGen)
+		plan = &Plan{}
+		if err := json.Unmarshal(b, plan); err != nil || plan.Prop == "" {
+			t.Fatalf("%s holds neither a replay document nor a plan", *fPlan)
+		}
+	}
 	eng := engineFor(plan.Prop)
 	fmt.Fprintf(os.Stderr, "VERIF-SEED %d BEGIN\n", plan.Seed)
 	res := eng.Run(plan)
